@@ -13,28 +13,38 @@ Definition valid_args (k : bytes) (c b d : N) : Prop :=
 (* the wrapper passes len(payload)*8 as a uint32: lengths for which that does not wrap *)
 Definition len32_ok (n : nat) : Prop := 8 * N.of_nat n < 2 ^ 32.
 
+(* a downward-closed set of payload lengths inside the non-wrapping range (the domain on which a
+   foreign function is known to behave; the largest one is len32_ok itself) *)
+Record len_dom (dom : nat -> Prop) : Prop := {
+  dom_le : forall n m, (n <= m)%nat -> dom m -> dom n;
+  dom_32 : forall n, dom n -> len32_ok n
+}.
+
+Lemma len32_dom : len_dom len32_ok.
+Proof. constructor; [unfold len32_ok; intros; lia|auto]. Qed.
+
 (* ---- what the wrapper theorems need of a foreign stream cipher (NEA1 / NEA3):
         on whole octets it is "xor with a keystream that depends only on key, COUNT, bearer,
         direction and the number of octets", the keystream for n octets being a prefix of the
-        one for n + m octets.  Derivable from: length preserved, keystream independence,
-        prefix stability, totality. *)
+        one for n + m octets.  Derivable from: totality with length, keystream independence,
+        prefix stability (stream_iface_of_laws below). *)
 Record stream_iface (nea : bytes -> N -> N -> N -> bytes -> N -> outcome bytes)
-                    (ks : bytes -> N -> N -> N -> nat -> bytes) : Prop := {
-  si_len : forall k c b d n, valid_args k c b d -> len32_ok n -> length (ks k c b d n) = n;
-  si_ok : forall k c b d n, valid_args k c b d -> len32_ok n -> bytes_ok (ks k c b d n);
-  si_prefix : forall k c b d n m, valid_args k c b d -> len32_ok (n + m)%nat ->
+                    (ks : bytes -> N -> N -> N -> nat -> bytes) (dom : nat -> Prop) : Prop := {
+  si_len : forall k c b d n, valid_args k c b d -> dom n -> length (ks k c b d n) = n;
+  si_prefix : forall k c b d n m, valid_args k c b d -> dom (n + m)%nat ->
               firstn n (ks k c b d (n + m)%nat) = ks k c b d n;
-  si_eq : forall k c b d p, valid_args k c b d -> bytes_ok p -> len32_ok (length p) ->
+  si_eq : forall k c b d p, valid_args k c b d -> dom (length p) ->
           nea k c b d p (8 * N.of_nat (length p)) = Ok (xorb p (ks k c b d (length p)))
 }.
 
-(* ---- ... and of a foreign MAC function (NIA1: uint64 bit length, NIA3: uint32 bit length) *)
-Definition mac_iface (nia : bytes -> N -> N -> N -> bytes -> N -> outcome bytes) (w : N) : Prop :=
-  forall k c b d m, valid_args k c b d -> bytes_ok m -> 8 * N.of_nat (length m) < 2 ^ w ->
+(* ---- ... and of a foreign MAC function *)
+Definition mac_iface (nia : bytes -> N -> N -> N -> bytes -> N -> outcome bytes)
+                     (dom : nat -> Prop) : Prop :=
+  forall k c b d m, valid_args k c b d -> bytes_ok m -> dom (length m) ->
   exists mac, nia k c b d m (8 * N.of_nat (length m)) = Ok mac /\ length mac = 4%nat.
 
-Definition payload_ok (p : option bytes) : Prop :=
-  match p with Some l => bytes_ok l /\ len32_ok (length l) | None => True end.
+Definition payload_ok (dom : nat -> Prop) (p : option bytes) : Prop :=
+  match p with Some l => bytes_ok l /\ dom (length l) | None => True end.
 
 Lemma copy_into_same dst src : length src = length dst -> copy_into dst src = src.
 Proof. intro L. unfold copy_into. rewrite <- L, firstn_all. rewrite L, skipn_all, app_nil_r. reflexivity. Qed.
@@ -62,9 +72,6 @@ Proof. unfold invalid. split; [intro H|intros H [?|[?|[?|?]]]]; try discriminate
 
 Lemma alg_cases alg : alg <= 3 -> alg = 0 \/ alg = 1 \/ alg = 2 \/ alg = 3.
 Proof. lia. Qed.
-
-Lemma len32_ok_le n m : (n <= m)%nat -> len32_ok m -> len32_ok n.
-Proof. unfold len32_ok. lia. Qed.
 
 (* ================= NASEncrypt ================= *)
 Section EncAPI.
@@ -137,9 +144,11 @@ Section EncAPI.
 
   (* ---------- the laws through the wrapper ---------- *)
 
+  Variable dom : nat -> Prop.
+  Hypothesis D : len_dom dom.
   Variables ks1 ks3 : bytes -> N -> N -> N -> nat -> bytes.
-  Hypothesis I1 : stream_iface nea1 ks1.
-  Hypothesis I3 : stream_iface nea3 ks3.
+  Hypothesis I1 : stream_iface nea1 ks1 dom.
+  Hypothesis I3 : stream_iface nea3 ks3 dom.
 
   (* the keystream of each algorithm *)
   Definition api_ks (alg : N) (k : bytes) (c b d : N) (n : nat) : bytes :=
@@ -148,97 +157,98 @@ Section EncAPI.
     else if alg =? 2 then nea2_ks E k c b d n
     else ks3 k c b d n.
 
-  Lemma api_ks_len alg k c b d n : alg <= 3 -> valid_args k c b d -> len32_ok n ->
+  Lemma api_ks_len alg k c b d n : alg <= 3 -> valid_args k c b d -> dom n ->
     length (api_ks alg k c b d n) = n.
   Proof.
     intros Ha V Hn. unfold api_ks.
     destruct (alg_cases alg Ha) as [ -> | [ -> | [ -> | -> ] ] ]; cbn [N.eqb Pos.eqb].
     - apply zeros_length.
-    - apply (si_len _ _ I1); assumption.
+    - apply (si_len _ _ _ I1); assumption.
     - apply nea2_ks_length; [exact Ewf|exact (proj1 V)].
-    - apply (si_len _ _ I3); assumption.
+    - apply (si_len _ _ _ I3); assumption.
   Qed.
 
-  Lemma api_ks_ok alg k c b d n : alg <= 3 -> valid_args k c b d -> len32_ok n ->
-    bytes_ok (api_ks alg k c b d n).
-  Proof.
-    intros Ha V Hn. unfold api_ks.
-    destruct (alg_cases alg Ha) as [ -> | [ -> | [ -> | -> ] ] ]; cbn [N.eqb Pos.eqb].
-    - apply zeros_ok.
-    - apply (si_ok _ _ I1); assumption.
-    - apply nea2_ks_ok; [exact Ewf|exact (proj1 V)].
-    - apply (si_ok _ _ I3); assumption.
-  Qed.
-
-  Lemma api_ks_prefix alg k c b d n m : alg <= 3 -> valid_args k c b d -> len32_ok (n + m)%nat ->
+  Lemma api_ks_prefix alg k c b d n m : alg <= 3 -> valid_args k c b d -> dom (n + m)%nat ->
     firstn n (api_ks alg k c b d (n + m)%nat) = api_ks alg k c b d n.
   Proof.
     intros Ha V Hn. unfold api_ks.
     destruct (alg_cases alg Ha) as [ -> | [ -> | [ -> | -> ] ] ]; cbn [N.eqb Pos.eqb].
     - unfold zeros. rewrite repeat_app, firstn_app, repeat_length, Nat.sub_diag, firstn_O, app_nil_r.
       rewrite <- (repeat_length 0 n) at 1. apply firstn_all.
-    - apply (si_prefix _ _ I1); assumption.
+    - apply (si_prefix _ _ _ I1); assumption.
     - apply nea2_ks_prefix; [exact Ewf|exact (proj1 V)].
-    - apply (si_prefix _ _ I3); assumption.
+    - apply (si_prefix _ _ _ I3); assumption.
   Qed.
 
   (* every valid call is "xor with the algorithm's keystream", written in place *)
-  Lemma enc_form alg k c b d p :
-    alg <= 3 -> valid_args k c b d -> bytes_ok p -> len32_ok (length p) ->
+  Lemma enc_form alg k c b d (p : bytes) :
+    alg <= 3 -> valid_args k c b d -> dom (length p) ->
     enc alg k c b d (Some p) = (Ok tt, Some (ksf (api_ks alg k c b d) p)).
   Proof.
-    intros Ha V O Hn.
+    intros Ha V Hn.
     pose proof (api_ks_len alg k c b d (length p) Ha V Hn) as KL.
+    pose proof (dom_32 _ D _ Hn) as H32.
     destruct V as [K [Hc [Hb Hd]]].
     destruct (encrypt_dispatch k c b d p ltac:(lia) ltac:(lia)) as [H0 [H1 [H2 H3]]].
     unfold ksf, api_ks in *.
     destruct (alg_cases alg Ha) as [ -> | [ -> | [ -> | -> ] ] ]; cbn [N.eqb Pos.eqb] in *.
     - rewrite H0, xorb_zeros_r by lia. reflexivity.
-    - rewrite H1, len32_wrap by exact Hn.
-      rewrite (si_eq _ _ I1) by (unfold valid_args; auto). cbn [enc_finish].
+    - rewrite H1, len32_wrap by exact H32.
+      rewrite (si_eq _ _ _ I1) by (unfold valid_args; auto). cbn [enc_finish].
       rewrite copy_into_same; [reflexivity|]. rewrite xorb_length, KL. lia.
     - rewrite H2, NEA2_ks by exact (proj1 K). cbn [enc_finish].
       rewrite copy_into_same; [reflexivity|]. rewrite xorb_length, KL. lia.
-    - rewrite H3, len32_wrap by exact Hn.
-      rewrite (si_eq _ _ I3) by (unfold valid_args; auto). cbn [enc_finish].
+    - rewrite H3, len32_wrap by exact H32.
+      rewrite (si_eq _ _ _ I3) by (unfold valid_args; auto). cbn [enc_finish].
       rewrite copy_into_same; [reflexivity|]. rewrite xorb_length, KL. lia.
   Qed.
 
   (* C08: length, involution, prefix stability, keystream independence, for algorithms 0..3 *)
-  Theorem encrypt_laws alg k c b d p :
-    alg <= 3 -> valid_args k c b d -> bytes_ok p -> len32_ok (length p) ->
+  Theorem encrypt_laws alg k c b d (p : bytes) :
+    alg <= 3 -> valid_args k c b d -> dom (length p) ->
     exists ct,
       enc alg k c b d (Some p) = (Ok tt, Some ct) /\
-      length ct = length p /\ bytes_ok ct /\
+      length ct = length p /\
       enc alg k c b d (Some ct) = (Ok tt, Some p) /\
       (forall n, enc alg k c b d (Some (firstn n p)) = (Ok tt, Some (firstn n ct))) /\
-      (forall q cq, bytes_ok q -> length q = length p ->
+      (forall (q cq : bytes), length q = length p ->
                     enc alg k c b d (Some q) = (Ok tt, Some cq) -> xorb ct p = xorb cq q).
   Proof.
-    intros Ha V O Hn.
+    intros Ha V Hn.
     set (ks := api_ks alg k c b d).
-    assert (KL : forall n, len32_ok n -> length (ks n) = n) by (intros; apply api_ks_len; assumption).
-    assert (KP : forall n m, len32_ok (n + m)%nat -> firstn n (ks (n + m)%nat) = ks n)
+    assert (KL : forall n, dom n -> length (ks n) = n) by (intros; apply api_ks_len; assumption).
+    assert (KP : forall n m, dom (n + m)%nat -> firstn n (ks (n + m)%nat) = ks n)
       by (intros; apply api_ks_prefix; assumption).
     exists (ksf ks p).
-    pose proof (ksf_length ks len32_ok KL p Hn) as CL.
-    assert (CO : bytes_ok (ksf ks p)) by (apply xorb_bytes_ok; [exact O|apply api_ks_ok; assumption]).
-    split; [apply enc_form; assumption|]. split; [exact CL|]. split; [exact CO|].
+    pose proof (ksf_length ks dom KL p Hn) as CL.
+    split; [apply enc_form; assumption|]. split; [exact CL|].
     split; [|split].
     - rewrite enc_form by (try assumption; rewrite CL; exact Hn).
-      fold ks. rewrite (ksf_involution ks len32_ok KL p Hn). reflexivity.
+      fold ks. rewrite (ksf_involution ks dom KL p Hn). reflexivity.
     - intro n. rewrite enc_form; try assumption.
-      + fold ks. rewrite (ksf_prefix ks len32_ok KL KP p n Hn). reflexivity.
-      + apply bytes_ok_firstn. exact O.
-      + apply (len32_ok_le _ (length p)); [rewrite firstn_length; lia|exact Hn].
-    - intros q cq Oq Lq Hq. rewrite enc_form in Hq by (try assumption; rewrite Lq; exact Hn).
+      + fold ks. rewrite (ksf_prefix ks dom KL KP p n Hn). reflexivity.
+      + apply (dom_le _ D _ (length p)); [rewrite firstn_length; lia|exact Hn].
+    - intros q cq Lq Hq. rewrite enc_form in Hq by (try assumption; rewrite Lq; exact Hn).
       inversion Hq; subst cq. fold ks.
-      apply (ksf_keystream_indep ks len32_ok KL p q Hn). symmetry. exact Lq.
+      apply (ksf_keystream_indep ks dom KL p q Hn). symmetry. exact Lq.
+  Qed.
+
+  (* the output octets are octets when the foreign keystreams are *)
+  Lemma encrypt_bytes_ok alg k c b d p ct :
+    (forall k c b d n, bytes_ok (ks1 k c b d n)) -> (forall k c b d n, bytes_ok (ks3 k c b d n)) ->
+    alg <= 3 -> valid_args k c b d -> dom (length p) -> bytes_ok p ->
+    enc alg k c b d (Some p) = (Ok tt, Some ct) -> bytes_ok ct.
+  Proof.
+    intros O1 O3 Ha V Hn O H. rewrite enc_form in H by assumption. inversion H; subst ct.
+    apply xorb_bytes_ok; [exact O|]. unfold api_ks.
+    destruct (alg_cases alg Ha) as [ -> | [ -> | [ -> | -> ] ] ]; cbn [N.eqb Pos.eqb]; auto.
+    - apply zeros_ok.
+    - apply nea2_ks_ok; [exact Ewf|exact (proj1 V)].
   Qed.
 
   (* no algorithm identity, bearer, direction, payload (nil, empty, any length) panics *)
   Theorem enc_total alg k c b d payload :
-    block_ok k -> c < 2 ^ 32 -> payload_ok payload ->
+    block_ok k -> c < 2 ^ 32 -> payload_ok dom payload ->
     is_total (fst (enc alg k c b d payload)).
   Proof.
     intros K Hc P.
@@ -297,13 +307,15 @@ Section MacAPI.
     destruct (nia2_eq_eia2 E Ewf k c b d m K Hc Hb Hd O) as [A [B _]]. auto.
   Qed.
 
-  Hypothesis M1 : mac_iface nia1 64.
-  Hypothesis M3 : mac_iface nia3 32.
+  Variable dom : nat -> Prop.
+  Hypothesis D : len_dom dom.
+  Hypothesis M1 : mac_iface nia1 dom.
+  Hypothesis M3 : mac_iface nia3 dom.
 
   (* a MAC is always exactly 4 octets: every call returns an error or 4 octets (never panics),
      for every algorithm identity, bearer and direction *)
   Theorem mac_len4 alg k c b d msg :
-    block_ok k -> c < 2 ^ 32 -> payload_ok msg ->
+    block_ok k -> c < 2 ^ 32 -> payload_ok dom msg ->
     mac alg k c b d msg = Err \/
     exists m, mac alg k c b d msg = Ok m /\ length m = 4%nat.
   Proof.
@@ -317,15 +329,13 @@ Section MacAPI.
     destruct (mac_dispatch k c b d m Hb Hd) as [H0 [H1 [H2 H3]]].
     destruct (alg_cases alg Ha) as [ -> | [ -> | [ -> | -> ] ] ].
     - rewrite H0. eexists; split; reflexivity.
-    - rewrite H1, len64_wrap by exact Hn. apply M1; try assumption.
-      unfold len32_ok in Hn. change (2 ^ 32) with 4294967296 in Hn.
-      change (2 ^ 64) with 18446744073709551616. lia.
+    - rewrite H1, len64_wrap by (apply (dom_32 _ D); exact Hn). apply M1; assumption.
     - rewrite H2. destruct (nia2_total E Ewf k c b d m K O) as [r [A [B _]]]. eauto.
-    - rewrite H3, len32_wrap by exact Hn. apply M3; assumption.
+    - rewrite H3, len32_wrap by (apply (dom_32 _ D); exact Hn). apply M3; assumption.
   Qed.
 
   Theorem mac_total alg k c b d msg :
-    block_ok k -> c < 2 ^ 32 -> payload_ok msg -> is_total (mac alg k c b d msg).
+    block_ok k -> c < 2 ^ 32 -> payload_ok dom msg -> is_total (mac alg k c b d msg).
   Proof.
     intros K Hc P. destruct (mac_len4 alg k c b d msg K Hc P) as [->|[m [-> _]]]; exact I.
   Qed.
@@ -337,17 +347,16 @@ Section IfaceInstances.
   Variable E : bytes -> bytes -> bytes.
   Hypothesis Ewf : E_wf E.
 
-  Lemma nea2_stream_iface :
-    stream_iface (fun k c b d p _ => NEA2 E k c b d p) (nea2_ks E).
+  Lemma nea2_stream_iface dom :
+    stream_iface (fun k c b d p _ => NEA2 E k c b d p) (nea2_ks E) dom.
   Proof.
     constructor.
     - intros k c b d n [K _] _. apply nea2_ks_length; assumption.
-    - intros k c b d n [K _] _. apply nea2_ks_ok; assumption.
     - intros k c b d n m [K _] _. apply nea2_ks_prefix; assumption.
-    - intros k c b d p [K _] _ _. apply NEA2_ks. exact (proj1 K).
+    - intros k c b d p [K _] _. apply NEA2_ks. exact (proj1 K).
   Qed.
 
-  Lemma nia2_mac_iface w : mac_iface (fun k c b d m _ => NIA2 E k c b d m) w.
+  Lemma nia2_mac_iface dom : mac_iface (fun k c b d m _ => NIA2 E k c b d m) dom.
   Proof.
     intros k c b d m [K _] O _.
     destruct (nia2_total E Ewf k c b d m K O) as [r [A [B _]]]. eauto.
@@ -360,16 +369,17 @@ End IfaceInstances.
 
 Section IfaceFromLaws.
   Variable nea : bytes -> N -> N -> N -> bytes -> N -> outcome bytes.
+  Variable dom : nat -> Prop.
 
   Definition bits (p : bytes) : N := 8 * N.of_nat (length p).
 
-  Hypothesis H_total : forall k c b d p, valid_args k c b d -> bytes_ok p -> len32_ok (length p) ->
-    exists o, nea k c b d p (bits p) = Ok o /\ length o = length p /\ bytes_ok o.
+  Hypothesis H_total : forall k c b d p, valid_args k c b d -> dom (length p) ->
+    exists o, nea k c b d p (bits p) = Ok o /\ length o = length p.
   Hypothesis H_indep : forall k c b d p q o o', valid_args k c b d ->
-    bytes_ok p -> bytes_ok q -> len32_ok (length p) -> length p = length q ->
+    dom (length p) -> length p = length q ->
     nea k c b d p (bits p) = Ok o -> nea k c b d q (bits q) = Ok o' -> xorb o p = xorb o' q.
   Hypothesis H_prefix : forall k c b d p o n, valid_args k c b d ->
-    bytes_ok p -> len32_ok (length p) -> (n <= length p)%nat ->
+    dom (length p) -> (n <= length p)%nat ->
     nea k c b d p (bits p) = Ok o -> nea k c b d (firstn n p) (bits (firstn n p)) = Ok (firstn n o).
 
   Definition ks_of_zeros (k : bytes) (c b d : N) (n : nat) : bytes :=
@@ -381,30 +391,22 @@ Section IfaceFromLaws.
     rewrite <- (repeat_length 0 n) at 1. apply firstn_all.
   Qed.
 
-  Theorem stream_iface_of_laws : stream_iface nea ks_of_zeros.
+  Theorem stream_iface_of_laws : stream_iface nea ks_of_zeros dom.
   Proof.
     constructor.
     - intros k c b d n V Hn. unfold ks_of_zeros.
-      destruct (H_total k c b d (zeros n) V (zeros_ok n)) as [o [A [B _]]];
-        [rewrite zeros_length; exact Hn|].
+      destruct (H_total k c b d (zeros n) V) as [o [A B]]; [rewrite zeros_length; exact Hn|].
       rewrite A, B. apply zeros_length.
-    - intros k c b d n V Hn. unfold ks_of_zeros.
-      destruct (H_total k c b d (zeros n) V (zeros_ok n)) as [o [A [_ C]]];
-        [rewrite zeros_length; exact Hn|].
-      rewrite A. exact C.
     - intros k c b d n m V Hn. unfold ks_of_zeros.
-      destruct (H_total k c b d (zeros (n + m)) V (zeros_ok _)) as [o [A [B _]]];
-        [rewrite zeros_length; exact Hn|].
+      destruct (H_total k c b d (zeros (n + m)) V) as [o [A B]]; [rewrite zeros_length; exact Hn|].
       rewrite A.
-      pose proof (H_prefix k c b d (zeros (n + m)) o n V (zeros_ok _)) as P.
+      pose proof (H_prefix k c b d (zeros (n + m)) o n V) as P.
       rewrite zeros_length, firstn_zeros in P. rewrite P; [reflexivity|exact Hn|lia|exact A].
-    - intros k c b d p V O Hn. unfold ks_of_zeros. fold (bits p).
-      destruct (H_total k c b d p V O Hn) as [o [A [B _]]].
-      destruct (H_total k c b d (zeros (length p)) V (zeros_ok _)) as [z [A' [B' _]]];
-        [rewrite zeros_length; exact Hn|].
+    - intros k c b d p V Hn. unfold ks_of_zeros. fold (bits p).
+      destruct (H_total k c b d p V Hn) as [o [A B]].
+      destruct (H_total k c b d (zeros (length p)) V) as [z [A' B']]; [rewrite zeros_length; exact Hn|].
       rewrite A, A'. f_equal.
-      pose proof (H_indep k c b d p (zeros (length p)) o z V O (zeros_ok _) Hn
-                    (eq_sym (zeros_length _)) A A') as I.
+      pose proof (H_indep k c b d p (zeros (length p)) o z V Hn (eq_sym (zeros_length _)) A A') as I.
       rewrite zeros_length in B'.
       rewrite (xorb_zeros_r z) in I by lia.
       rewrite <- I. rewrite (xorb_comm p), xorb_involutive by lia. reflexivity.
